@@ -642,7 +642,7 @@ func (p *H265PACIPacket) TSCI() *H265TSCI {
 		return nil
 	}
 
-	tsci := H265TSCI((uint32(p.phes[0]) << 16) | (uint32(p.phes[1]) << 8) | uint32(p.phes[0]))
+	tsci := H265TSCI((uint32(p.phes[0]) << 24) | (uint32(p.phes[1]) << 16) | (uint32(p.phes[2]) << 8))
 
 	return &tsci
 }
